@@ -826,9 +826,19 @@ func run(progFile, traceFile string) error {
 }
 
 func main() {
-	if err := layoutOK(); err != nil {
-		fmt.Fprintln(os.Stderr, "edrv: layout self-test failed:", err)
-		os.Exit(3)
+	// VERIF_COLD=1: the programs must be the first thing that touches the library in this process (not even the layout
+	// self-test, which decodes the generator, runs before them); the self-test then runs afterwards
+	cold := os.Getenv("VERIF_COLD") == "1"
+	checkLayout := func() {
+		if err := layoutOK(); err != nil {
+			fmt.Fprintln(os.Stderr, "edrv: layout self-test failed:", err)
+			os.Exit(3)
+		}
+	}
+	if !cold {
+		checkLayout()
+	} else {
+		defer checkLayout()
 	}
 	if len(os.Args) >= 2 && os.Args[1] == "selftest" {
 		fmt.Println("edrv: layout ok; shim:", haveShim)
@@ -839,7 +849,7 @@ func main() {
 			fmt.Fprintln(os.Stderr, "edrv:", err)
 			os.Exit(2)
 		}
-		return
+		return // (a cold run checks the layout now, in the deferred call)
 	}
 	if len(os.Args) == 4 && os.Args[1] == "ct" {
 		if err := runCT(os.Args[2], os.Args[3]); err != nil {
